@@ -6,6 +6,7 @@ import (
 	"bytes"
 	"encoding/json"
 	"fmt"
+	vref "golang.org/x/perf/internal/verifref"
 	"math"
 	"os"
 	"sort"
@@ -257,6 +258,13 @@ func c14Check(dir string, sh dsShape, fl c14Flags) string {
 					bs := benchmath.NewSample(append([]float64{}, bc.values...), thr)
 					bsum := assumption.Summary(bs, fl.Confidence)
 					cmp := assumption.Compare(bs, sample)
+					// the p-value also against a reference that does not go through benchmath: for the default
+					// assumption and small samples without ties it is the exact permutation value of the U test
+					if assumption == benchmath.AssumeNothing && len(bc.values)+len(wc.values) <= 12 && c14Untied(bc.values, wc.values) {
+						if want := vref.ExactUTwoSided(bc.values, wc.values); !(math.Abs(cmp.P-want) <= 1e-9) || cmp.N1 != len(bc.values) || cmp.N2 != len(wc.values) {
+							return fmt.Sprintf("table %v %s cell (%q,%q): the assumption's comparison gives p=%v n=%d+%d, the exact permutation value for base %v against %v is %v", gt.Key, gt.Unit, rl, cl, cmp.P, cmp.N1, cmp.N2, bc.values, wc.values, want)
+						}
+					}
 					wd, wcmp := cmp.FormatDelta(bsum.Center, sum.Center), cmp.String()
 					if gc.Delta != wd || gc.Cmp != wcmp {
 						return fmt.Sprintf("table %v %s cell (%q,%q): delta %q %q, expected %q %q (base %v, samples %v)", gt.Key, gt.Unit, rl, cl, gc.Delta, gc.Cmp, wd, wcmp, bc.values, wc.values)
@@ -494,4 +502,16 @@ func TestVerifC14(t *testing.T) {
 	if code := c.Finish(); code != 0 {
 		os.Exit(code)
 	}
+}
+
+// c14Untied reports whether all pooled values are distinct.
+func c14Untied(a, b []float64) bool {
+	seen := map[float64]bool{}
+	for _, v := range append(append([]float64{}, a...), b...) {
+		if seen[v] {
+			return false
+		}
+		seen[v] = true
+	}
+	return true
 }
